@@ -162,8 +162,13 @@ def run(ctx, pid, *, ops_fn, inst_fn=None, theorems=(), trusted=(), assumptions=
         "hand-written model of the cattrs 24.1 / attrs 24.2 fragment the package uses (Core/Cattrs.lean), validated on every run by the correspondence stream",
     ] + list(trusted)
     ctx.assumptions += list(assumptions)
+    import time as _t
+    t0 = _t.time()
+    timing = ctx.extra.setdefault("timing_s", {})
     problems = build_env(ctx)
+    timing["translate+elaborate tables"] = round(_t.time() - t0, 1)
     if not problems:
+        t0 = _t.time()
         if inst_fn is not None:
             spec = inst_fn()
             layers = []
@@ -185,11 +190,16 @@ def run(ctx, pid, *, ops_fn, inst_fn=None, theorems=(), trusted=(), assumptions=
             failed = ctx.add_lean_results(res, theorems_expected={"Witness": wnames})
             for r in failed:
                 ctx.notes.append("known-finding witness theorem no longer holds in the model (finding repaired or model drifted): " + r.out[-400:])
+        timing["kernel obligations"] = round(_t.time() - t0, 1)
+        t0 = _t.time()
         ops = ops_fn(streams(ctx))
         problems += correspondence(ctx, ops)
+        timing["correspondence"] = round(_t.time() - t0, 1)
         for o in ops[:: max(1, len(ops) // 3)][:3]:
             ctx.sample(o[:400])
+    t0 = _t.time()
     out, err = run_oracle(ctx, pid)
+    timing["oracle"] = round(_t.time() - t0, 1)
     if out is None:
         problems.append("oracle crashed: " + err)
     else:
